@@ -13,6 +13,7 @@ configuration (`Config.EdgeLocal`), at the level of `Config.runVertex`, for any 
 -/
 import Compass.Proofs.SearchOpt
 import Compass.Proofs.ConfigUniform
+import Compass.Proofs.ConfigProgress
 
 namespace Compass
 namespace C05
@@ -130,6 +131,32 @@ theorem config_tree_reachable_least_cost (c : Config α) (h : c.EdgeLocal) {sour
           (path.map (fun b => b.access + b.traversal)).sum ≤ cost c.costOf es :=
   _root_.Compass.config_tree_reachable_least_cost c h hrun
 
+/-- the premise "among the outcomes result / no path" excludes nothing but terminations: on a
+well-formed configuration (distance model: the distance feature exists, the cost vectors cover the
+features, no frontier model errs on a graph edge, listed edge ids are graph edges, the great-circle
+table covers the vertices) a run returns a result or ends in "no path", the explicit termination
+(or the zero-frequency panic of the runtime limit) or one of the two schedule-replay errors of the
+model — never in a network / frontier / traversal / access / cost / state / internal error.  This is
+where the state invariant "one slot per feature, last edge in the graph" is needed. -/
+theorem config_run_result_or_benign (c : Config α) {du : DistanceUnit}
+    (W : c.WellFormedDistance du) {source : Nat} {target : Option Nat}
+    (G : c.GraphOK source target.isSome) (sched : List Nat) (k : ErrKind)
+    (h : c.runVertex source target sched = .error k) :
+    k = .noPath ∨ (∃ ks, k = .terminated ks) ∨ k = .panic "termination-frequency-zero" ∨
+      k = .badSchedule ∨ k = .scheduleExhausted :=
+  config_run_benign c W G sched k h
+
+/-- the total form of the premises (what DESIGN §5 C02 calls `StateIndep`): on a well-formed
+configuration, from every (last edge, state) pair with one slot per feature and a graph edge as last
+edge, the frontier models answer `okOf` and the traversal answers, charges `costOf` and passes the
+invariant on -/
+theorem config_calls_answer (c : Config α) {du : DistanceUnit} (W : c.WellFormedDistance du)
+    {e : Nat} (he : e < c.edges.length) {le : Option Nat} {st : List α} (hS : c.StateOK le st) :
+    c.inst.valid e st le = .ok (c.okOf e) ∧
+    ∃ ac tc st', c.inst.trav e le st = .ok (ac, tc, st') ∧ ac + tc = c.costOf e ∧
+      c.StateOK (some e) st' :=
+  ⟨c.valid_total W he le st, c.trav_total W he hS⟩
+
 /-! ### Non-vacuity on a concrete configuration: the isolated vertex 4 of `exC` gives "no path",
 vertex 3 a result, and the theorem turns each into the (un)reachability statement -/
 
@@ -163,6 +190,13 @@ example : ∃ r tree, exC.runVertex 0 none [0, 1, 2, 3] = .ok r ∧ r.trees = [t
     intro hex
     have := (hreach 4).2 hex
     simp [h4] at this
+
+/-- `exC` is well formed: whatever the schedule, a run from vertex 0 returns or ends benignly -/
+example (target : Option Nat) (sched : List Nat) (k : ErrKind)
+    (h : exC.runVertex 0 target sched = .error k) :
+    k = .noPath ∨ (∃ ks, k = .terminated ks) ∨ k = .panic "termination-frequency-zero" ∨
+      k = .badSchedule ∨ k = .scheduleExhausted :=
+  config_run_result_or_benign exC exC_wellFormed (exC_graphOK 0 (by decide) _) sched k h
 
 end
 
